@@ -3,6 +3,7 @@ package clientgroups
 import (
 	"context"
 	"errors"
+	"sync"
 	"time"
 
 	"go.uber.org/zap"
@@ -11,6 +12,8 @@ import (
 // C19 — client groups pick clients as their policy says.
 
 type vfClient struct{ id int }
+
+type vfWaitGroup = sync.WaitGroup
 
 var vfErrProbe = errors.New("probe failed")
 
@@ -156,5 +159,47 @@ func vfC19_Static() {
 	rnd := randomClientSelector[vfClient]{clients: clients}
 	g := rnd.Select().id
 	vfAssert(g >= 0 && g < n, "random only returns members")
+	vfReach("end")
+}
+
+// vfC19_JobStep: ONE probe job from an ARBITRARY retained history and an arbitrary round number
+// (so histories of any length, beyond the 32/64-round retention, are covered): exactly the slot
+// of this round is overwritten with this round's outcome, every other slot is untouched.
+func vfC19_JobStep() {
+	ok := vfBool("ok")
+	count := uint(vfU64("round"))
+	var wg vfWaitGroup
+	probe := func(ctx context.Context, c vfClient) error {
+		if !ok {
+			return vfErrProbe
+		}
+		return nil
+	}
+	// availability
+	hist := uint(vfU64("history"))
+	h0 := hist
+	wg.Add(1)
+	(&availabilityProbeJob[vfClient]{wg: &wg, probe: probe, timeout: vfTimeout, client: vfClient{0}, result: &hist, count: count}).Run(context.Background())
+	bit := uint(1) << (count % 64)
+	vfAssert((hist&bit != 0) == ok, "the round's slot records this round's outcome (a failed probe clears it)")
+	vfAssert(hist&^bit == h0&^bit, "all other retained rounds are untouched")
+	// latency: a failed probe counts as the timeout, a successful one as the elapsed time (0 here: the clock does not move)
+	var lat [latencyProbeResultSize]time.Duration
+	for i := range lat {
+		lat[i] = time.Duration(vfI64("lat"))
+	}
+	l0 := lat
+	wg.Add(1)
+	(&latencyProbeJob[vfClient]{wg: &wg, probe: probe, timeout: vfTimeout, client: vfClient{0}, result: &lat, count: count}).Run(context.Background())
+	slot := int(vfConcretize(uint64(count%latencyProbeResultSize), 0, latencyProbeResultSize-1))
+	want := time.Duration(0)
+	if !ok {
+		want = vfTimeout
+	}
+	vfAssert(lat[slot] == want, "the round's latency slot records this round's outcome (failure = timeout)")
+	w := int(vfConcretize(vfU64("other"), 0, latencyProbeResultSize-1))
+	if w != slot {
+		vfAssert(lat[w] == l0[w], "all other retained latencies are untouched")
+	}
 	vfReach("end")
 }
